@@ -261,16 +261,13 @@ impl<S: Syntax, D> SyntaxToken<S, D> {
     /// ```
     #[inline]
     pub fn text_eq(&self, other: &Self) -> bool {
-        if let Some(k1) = self.green().text_key() {
-            match other.green().text_key() {
-                Some(k2) => return k1 == k2,
-                None => return false, // a kind with static text cannot be equal to one with non-static text
-            }
+        match (self.green().text_key(), other.green().text_key()) {
+            (Some(k1), Some(k2)) => k1 == k2,
+            // both kinds have static text, which may be the same for different kinds
+            (None, None) => self.static_text() == other.static_text(),
+            // a kind with static text cannot be equal to one with non-static text
+            _ => false,
         }
-
-        debug_assert!(self.static_text().is_some());
-        debug_assert!(other.static_text().is_some());
-        self.syntax_kind() == other.syntax_kind()
     }
 
     /// Returns the interned key of text covered by this token, if any.
